@@ -213,6 +213,7 @@ VARIANTS = [
     V( 'string-pad-by-stream-position', 'server/enip/parser.py', "predicate=lambda path=None, data=None, **kwds: (\n 0 == data[path].length % 2 and len( data[path].string ) == data[path].length ),", "predicate=lambda source=None, path=None, data=None, **kwds: (\n                                        0 == source.sent % 2 and len( data[path].string ) == data[path].length ),", fires=[ 'G-PADPOS', 'G-EXACT' ], why='round 13 C10/2' ),
     V( 'string-pad-by-length-of-text', 'server/enip/parser.py', "predicate=lambda path=None, data=None, **kwds: (\n 0 == data[path].length % 2 and len( data[path].string ) == data[path].length ),", "predicate=lambda source=None, path=None, data=None, **kwds: (\n                                        len( data[path].string ) % 2 == 0 and len( data[path].string ) == data[path].length ),", silent=[ 'G-PADPOS', 'G-EXACT' ] ),
     V( 'cip-types-validators-made-in-loop', CLIENT, "def parse_operations( tags, fragment=False, int_type=None, **kwds ):", "for _int,_lo,_hi in (( parser.USINT, 0, 2**8-1 ), ( parser.UINT, 0, 2**16-1 )):\n    CIP_TYPES[_int.__name__]	= ( _int.tag_type, _int.struct_calcsize, lambda x: int_validate( x, _lo, _hi ))\n\ndef parse_operations( tags, fragment=False, int_type=None, **kwds ):", fires=[ 'W-LATEBIND' ], why='round 13 C12/1' ),
+    V( 'cip-types-validators-made-in-comprehension', CLIENT, "def parse_operations( tags, fragment=False, int_type=None, **kwds ):", "CIP_TYPES.update( dict( [ ( _int.__name__, ( _int.tag_type, _int.struct_calcsize, lambda x: int_validate( x, _lo, _hi ))) for _int,_lo,_hi in (( parser.USINT, 0, 2**8-1 ), ( parser.UINT, 0, 2**16-1 )) ] ))\n\ndef parse_operations( tags, fragment=False, int_type=None, **kwds ):", fires=[ 'W-LATEBIND' ] ),
     V( 'cip-types-validators-bound-by-default', CLIENT, "def parse_operations( tags, fragment=False, int_type=None, **kwds ):", "for _int,_lo,_hi in (( parser.USINT, 0, 2**8-1 ), ( parser.UINT, 0, 2**16-1 )):\n    CIP_TYPES[_int.__name__]	= ( _int.tag_type, _int.struct_calcsize, lambda x, _lo=_lo, _hi=_hi: int_validate( x, _lo, _hi ))\n\ndef parse_operations( tags, fragment=False, int_type=None, **kwds ):", silent=[ 'W-LATEBIND' ] ),
     V( 'path-component-second-element-segment', DEVICE, "if not segments or 'element' not in segments[-1]:\n segments.append( {} )\n segments[-1]['element']	= elm", "segments.append( { 'element': elm } )", fires=[ 'T-PATHCOMP' ], why='round 13 C12/2' ),
     V( 'path-component-element-replaced-otherwise', DEVICE, "if not segments or 'element' not in segments[-1]:\n segments.append( {} )\n segments[-1]['element']	= elm", "if segments and 'element' in segments[-1]:\n            segments[-1]	= { 'element': elm }\n        else:\n            segments.append( { 'element': elm } )", silent=[ 'T-PATHCOMP' ] ),
